@@ -7,6 +7,8 @@ together with the value each text denotes for tengo's decoder.
 `Val pf t v`: the byte string `t` is a JSON value (no surrounding white space) and denotes `v`.
 `Json pf b v`: `b` is a JSON text (`ws value ws`) denoting `v`.  `Grammar.json b := ∃ v, Json pf b v`
 does not depend on `pf` (which only supplies the float read from a number token).
+`ValD pf n t v` / `JsonD pf n b v`: the same with arrays and objects nested at most `n` deep (the scanner
+has the limit `maxNestingDepth`).
 -/
 namespace Tengo.Proofs.JsonGrammar
 open Tengo.Model.Json
@@ -126,5 +128,156 @@ theorem grammar_induction {pf : Bytes → UInt64} {P1 : Bytes → J → Prop} {P
       (motive_3 := fun m es _ => P3 m es) hnull htrue hfalse hnum hstr harrE harr hobjE hobj hone hmore hmone hmmore h,
    fun h => Members.rec (motive_1 := fun t v _ => P1 t v) (motive_2 := fun e xs _ => P2 e xs)
       (motive_3 := fun m es _ => P3 m es) hnull htrue hfalse hnum hstr harrE harr hobjE hobj hone hmore hmone hmmore h⟩
+
+/-! ## The grammar with a bound on the nesting depth
+
+`ValD pf n t v` is `Val pf t v` whose arrays and objects are nested at most `n` deep: a scalar has
+depth 0, `[]` and `{}` depth 1, a non-empty array or object one more than its deepest element or member
+value. The productions are those of `Val` / `Elems` / `Members`, one for one (`ValD.toVal`,
+`Val.toD`); the index only counts the `[`/`{` levels (`ValD.mono`: it is an upper bound). -/
+
+mutual
+  inductive ValD (pf : Bytes → UInt64) : Nat → Bytes → J → Prop where
+    | null {n} : ValD pf n [0x6E, 0x75, 0x6C, 0x6C] .null
+    | true {n} : ValD pf n [0x74, 0x72, 0x75, 0x65] (.bool true)
+    | false {n} : ValD pf n [0x66, 0x61, 0x6C, 0x73, 0x65] (.bool false)
+    | num {n t} : NumTok t → ValD pf n t (number pf (t.any isFloatByte) t)
+    | str {n b} : StrBody b → ValD pf n (quote b) (.str (strDen b))
+    | arrEmpty {n w} : WS w → ValD pf (n + 1) (0x5B :: w ++ [0x5D]) (.arr .nil)
+    | arr {n e xs} : ElemsD pf n e xs → ValD pf (n + 1) (0x5B :: e ++ [0x5D]) (.arr xs)
+    | objEmpty {n w} : WS w → ValD pf (n + 1) (0x7B :: w ++ [0x7D]) (.obj .nil)
+    | obj {n m es} : MembersD pf n m es → ValD pf (n + 1) (0x7B :: m ++ [0x7D]) (.obj (insertAll es .nil))
+  inductive ElemsD (pf : Bytes → UInt64) : Nat → Bytes → JList → Prop where
+    | one {n w1 t w2 v} : WS w1 → ValD pf n t v → WS w2 → ElemsD pf n (w1 ++ t ++ w2) (.cons v .nil)
+    | more {n w1 t w2 v e xs} : WS w1 → ValD pf n t v → WS w2 → ElemsD pf n e xs →
+        ElemsD pf n (w1 ++ t ++ w2 ++ 0x2C :: e) (.cons v xs)
+  inductive MembersD (pf : Bytes → UInt64) : Nat → Bytes → JMems → Prop where
+    | one {n w1 k w2 w3 t w4 v} : WS w1 → StrBody k → WS w2 → WS w3 → ValD pf n t v → WS w4 →
+        MembersD pf n (w1 ++ quote k ++ w2 ++ 0x3A :: w3 ++ t ++ w4) (.cons (strDen k) v .nil)
+    | more {n w1 k w2 w3 t w4 v m es} : WS w1 → StrBody k → WS w2 → WS w3 → ValD pf n t v → WS w4 → MembersD pf n m es →
+        MembersD pf n (w1 ++ quote k ++ w2 ++ 0x3A :: w3 ++ t ++ w4 ++ 0x2C :: m) (.cons (strDen k) v es)
+end
+
+/-- `JSON-text = ws value ws` with nesting depth at most `n`. -/
+def JsonD (pf : Bytes → UInt64) (n : Nat) (b : Bytes) (v : J) : Prop :=
+  ∃ w1 t w2, b = w1 ++ t ++ w2 ∧ WS w1 ∧ ValD pf n t v ∧ WS w2
+
+/-- Simultaneous induction over `ValD` / `ElemsD` / `MembersD` with derivation-independent motives. -/
+theorem grammarD_induction {pf : Bytes → UInt64} {P1 : Nat → Bytes → J → Prop} {P2 : Nat → Bytes → JList → Prop}
+    {P3 : Nat → Bytes → JMems → Prop}
+    (hnull : ∀ {n}, P1 n [0x6E, 0x75, 0x6C, 0x6C] .null)
+    (htrue : ∀ {n}, P1 n [0x74, 0x72, 0x75, 0x65] (.bool true))
+    (hfalse : ∀ {n}, P1 n [0x66, 0x61, 0x6C, 0x73, 0x65] (.bool false))
+    (hnum : ∀ {n t}, NumTok t → P1 n t (number pf (t.any isFloatByte) t))
+    (hstr : ∀ {n b}, StrBody b → P1 n (quote b) (.str (strDen b)))
+    (harrE : ∀ {n w}, WS w → P1 (n + 1) (0x5B :: w ++ [0x5D]) (.arr .nil))
+    (harr : ∀ {n e xs}, ElemsD pf n e xs → P2 n e xs → P1 (n + 1) (0x5B :: e ++ [0x5D]) (.arr xs))
+    (hobjE : ∀ {n w}, WS w → P1 (n + 1) (0x7B :: w ++ [0x7D]) (.obj .nil))
+    (hobj : ∀ {n m es}, MembersD pf n m es → P3 n m es → P1 (n + 1) (0x7B :: m ++ [0x7D]) (.obj (insertAll es .nil)))
+    (hone : ∀ {n w1 t w2 v}, WS w1 → ValD pf n t v → WS w2 → P1 n t v → P2 n (w1 ++ t ++ w2) (.cons v .nil))
+    (hmore : ∀ {n w1 t w2 v e xs}, WS w1 → ValD pf n t v → WS w2 → ElemsD pf n e xs → P1 n t v → P2 n e xs →
+      P2 n (w1 ++ t ++ w2 ++ 0x2C :: e) (.cons v xs))
+    (hmone : ∀ {n w1 k w2 w3 t w4 v}, WS w1 → StrBody k → WS w2 → WS w3 → ValD pf n t v → WS w4 → P1 n t v →
+      P3 n (w1 ++ quote k ++ w2 ++ 0x3A :: w3 ++ t ++ w4) (.cons (strDen k) v .nil))
+    (hmmore : ∀ {n w1 k w2 w3 t w4 v m es}, WS w1 → StrBody k → WS w2 → WS w3 → ValD pf n t v → WS w4 → MembersD pf n m es →
+      P1 n t v → P3 n m es → P3 n (w1 ++ quote k ++ w2 ++ 0x3A :: w3 ++ t ++ w4 ++ 0x2C :: m) (.cons (strDen k) v es)) :
+    (∀ {n t v}, ValD pf n t v → P1 n t v) ∧ (∀ {n e xs}, ElemsD pf n e xs → P2 n e xs) ∧
+    (∀ {n m es}, MembersD pf n m es → P3 n m es) :=
+  ⟨fun h => ValD.rec (motive_1 := fun n t v _ => P1 n t v) (motive_2 := fun n e xs _ => P2 n e xs)
+      (motive_3 := fun n m es _ => P3 n m es) hnull htrue hfalse hnum hstr harrE harr hobjE hobj hone hmore hmone hmmore h,
+   fun h => ElemsD.rec (motive_1 := fun n t v _ => P1 n t v) (motive_2 := fun n e xs _ => P2 n e xs)
+      (motive_3 := fun n m es _ => P3 n m es) hnull htrue hfalse hnum hstr harrE harr hobjE hobj hone hmore hmone hmmore h,
+   fun h => MembersD.rec (motive_1 := fun n t v _ => P1 n t v) (motive_2 := fun n e xs _ => P2 n e xs)
+      (motive_3 := fun n m es _ => P3 n m es) hnull htrue hfalse hnum hstr harrE harr hobjE hobj hone hmore hmone hmmore h⟩
+
+/-- Forgetting the bound: a depth-bounded derivation is a derivation of the RFC grammar. -/
+theorem toVal_all (pf : Bytes → UInt64) :
+    (∀ {n t v}, ValD pf n t v → Val pf t v) ∧ (∀ {n e xs}, ElemsD pf n e xs → Elems pf e xs) ∧
+    (∀ {n m es}, MembersD pf n m es → Members pf m es) := by
+  apply grammarD_induction (P1 := fun _ t v => Val pf t v) (P2 := fun _ e xs => Elems pf e xs)
+    (P3 := fun _ m es => Members pf m es)
+  · exact .null
+  · exact .true
+  · exact .false
+  · intro _ t h; exact .num h
+  · intro _ b h; exact .str h
+  · intro _ w h; exact .arrEmpty h
+  · intro _ e xs _ ih; exact .arr ih
+  · intro _ w h; exact .objEmpty h
+  · intro _ m es _ ih; exact .obj ih
+  · intro _ w1 t w2 v h1 _ h2 ih; exact .one h1 ih h2
+  · intro _ w1 t w2 v e xs h1 _ h2 _ ih ihe; exact .more h1 ih h2 ihe
+  · intro _ w1 k w2 w3 t w4 v h1 hk h2 h3 _ h4 ih; exact .one h1 hk h2 h3 ih h4
+  · intro _ w1 k w2 w3 t w4 v m es h1 hk h2 h3 _ h4 _ ih ihm; exact .more h1 hk h2 h3 ih h4 ihm
+
+theorem ValD.toVal {pf : Bytes → UInt64} {n : Nat} {t : Bytes} {v : J} (h : ValD pf n t v) : Val pf t v := (toVal_all pf).1 h
+
+/-- The index is an upper bound. -/
+theorem mono_all (pf : Bytes → UInt64) :
+    (∀ {n t v}, ValD pf n t v → ∀ k, n ≤ k → ValD pf k t v) ∧ (∀ {n e xs}, ElemsD pf n e xs → ∀ k, n ≤ k → ElemsD pf k e xs) ∧
+    (∀ {n m es}, MembersD pf n m es → ∀ k, n ≤ k → MembersD pf k m es) := by
+  apply grammarD_induction (P1 := fun n t v => ∀ k, n ≤ k → ValD pf k t v) (P2 := fun n e xs => ∀ k, n ≤ k → ElemsD pf k e xs)
+    (P3 := fun n m es => ∀ k, n ≤ k → MembersD pf k m es)
+  · intro _ k _; exact .null
+  · intro _ k _; exact .true
+  · intro _ k _; exact .false
+  · intro _ t h k _; exact .num h
+  · intro _ b h k _; exact .str h
+  · intro n w h k hk
+    obtain ⟨k', rfl⟩ : ∃ k', k = k' + 1 := ⟨k - 1, by omega⟩
+    exact .arrEmpty h
+  · intro n e xs _ ih k hk
+    obtain ⟨k', rfl⟩ : ∃ k', k = k' + 1 := ⟨k - 1, by omega⟩
+    exact .arr (ih k' (by omega))
+  · intro n w h k hk
+    obtain ⟨k', rfl⟩ : ∃ k', k = k' + 1 := ⟨k - 1, by omega⟩
+    exact .objEmpty h
+  · intro n m es _ ih k hk
+    obtain ⟨k', rfl⟩ : ∃ k', k = k' + 1 := ⟨k - 1, by omega⟩
+    exact .obj (ih k' (by omega))
+  · intro _ w1 t w2 v h1 _ h2 ih k hk; exact .one h1 (ih k hk) h2
+  · intro _ w1 t w2 v e xs h1 _ h2 _ ih ihe k hk; exact .more h1 (ih k hk) h2 (ihe k hk)
+  · intro _ w1 k' w2 w3 t w4 v h1 hk' h2 h3 _ h4 ih k hk; exact .one h1 hk' h2 h3 (ih k hk) h4
+  · intro _ w1 k' w2 w3 t w4 v m es h1 hk' h2 h3 _ h4 _ ih ihm k hk; exact .more h1 hk' h2 h3 (ih k hk) h4 (ihm k hk)
+
+theorem ValD.mono {pf : Bytes → UInt64} {n k : Nat} {t : Bytes} {v : J} (h : ValD pf n t v) (hk : n ≤ k) : ValD pf k t v :=
+  (mono_all pf).1 h k hk
+
+/-- Every derivation of the RFC grammar has some finite nesting depth. -/
+theorem toD_all (pf : Bytes → UInt64) :
+    (∀ {t v}, Val pf t v → ∃ n, ValD pf n t v) ∧ (∀ {e xs}, Elems pf e xs → ∃ n, ElemsD pf n e xs) ∧
+    (∀ {m es}, Members pf m es → ∃ n, MembersD pf n m es) := by
+  apply grammar_induction (P1 := fun t v => ∃ n, ValD pf n t v) (P2 := fun e xs => ∃ n, ElemsD pf n e xs)
+    (P3 := fun m es => ∃ n, MembersD pf n m es)
+  · exact ⟨0, .null⟩
+  · exact ⟨0, .true⟩
+  · exact ⟨0, .false⟩
+  · intro t h; exact ⟨0, .num h⟩
+  · intro b h; exact ⟨0, .str h⟩
+  · intro w h; exact ⟨1, .arrEmpty h⟩
+  · intro e xs _ ⟨n, ih⟩; exact ⟨n + 1, .arr ih⟩
+  · intro w h; exact ⟨1, .objEmpty h⟩
+  · intro m es _ ⟨n, ih⟩; exact ⟨n + 1, .obj ih⟩
+  · intro w1 t w2 v h1 _ h2 ⟨n, ih⟩; exact ⟨n, .one h1 ih h2⟩
+  · intro w1 t w2 v e xs h1 _ h2 _ ⟨n, ih⟩ ⟨n', ihe⟩
+    exact ⟨max n n', .more h1 (ih.mono (Nat.le_max_left _ _)) h2 ((mono_all pf).2.1 ihe _ (Nat.le_max_right _ _))⟩
+  · intro w1 k w2 w3 t w4 v h1 hk h2 h3 _ h4 ⟨n, ih⟩; exact ⟨n, .one h1 hk h2 h3 ih h4⟩
+  · intro w1 k w2 w3 t w4 v m es h1 hk h2 h3 _ h4 _ ⟨n, ih⟩ ⟨n', ihm⟩
+    exact ⟨max n n', .more h1 hk h2 h3 (ih.mono (Nat.le_max_left _ _)) h4 ((mono_all pf).2.2 ihm _ (Nat.le_max_right _ _))⟩
+
+theorem Val.toD {pf : Bytes → UInt64} {t : Bytes} {v : J} (h : Val pf t v) : ∃ n, ValD pf n t v := (toD_all pf).1 h
+
+theorem JsonD.toJson {pf : Bytes → UInt64} {n : Nat} {b : Bytes} {v : J} (h : JsonD pf n b v) : Json pf b v := by
+  obtain ⟨w1, t, w2, hb, h1, hv, h2⟩ := h
+  exact ⟨w1, t, w2, hb, h1, hv.toVal, h2⟩
+
+theorem JsonD.mono {pf : Bytes → UInt64} {n k : Nat} {b : Bytes} {v : J} (h : JsonD pf n b v) (hk : n ≤ k) : JsonD pf k b v := by
+  obtain ⟨w1, t, w2, hb, h1, hv, h2⟩ := h
+  exact ⟨w1, t, w2, hb, h1, hv.mono hk, h2⟩
+
+theorem Json.toD {pf : Bytes → UInt64} {b : Bytes} {v : J} (h : Json pf b v) : ∃ n, JsonD pf n b v := by
+  obtain ⟨w1, t, w2, hb, h1, hv, h2⟩ := h
+  obtain ⟨n, hd⟩ := hv.toD
+  exact ⟨n, w1, t, w2, hb, h1, hd, h2⟩
 
 end Tengo.Proofs.JsonGrammar
